@@ -187,6 +187,13 @@ TemplateDict.render = render
 
 class Eval(RestrictionCapableEval):
 
+    def __init__(self, expr):
+        try:
+            super().__init__(expr)
+        except UnicodeEncodeError as e:
+            # The source cannot be encoded for compile (lone surrogates)
+            raise SyntaxError(str(e))
+
     def eval(self, md):
         gattr = getattr(md, 'guarded_getattr', None)
         if gattr is not None:
